@@ -140,10 +140,15 @@ PROPS = {
     ),
     'C13': dict(
         title='Specifications pickle by reference and unpickle to the equivalent live object',
-        contracts=[], falsifier='C13', modes=['py', 'c'], level='other',
-        level_text='Bounded: real pickle round trips of every fixture x all protocols; the pickle protocol itself is an external dependency.',
-        level_note='bounded over a fixed fixture module; pickle is trusted',
-        explanation='bounded run-time contract checking of the real code against an executable specification written from the statement; no obligation discharged yet for this property',
+        contracts=['C13_pickle'], falsifier='C13', modes=['py', 'c'], level='other',
+        level_text="The five __reduce__ methods (InterfaceClass, Implements, the empty declaration, Provides, ClassProvides) are "
+                   "verified from their real bodies: each reduces to a name or to (callable, arguments) that, under the assumed model "
+                   "of pickle, rebuild the identical object (interface: its own name; class specification: implementedBy(its class), "
+                   "also for classes declared with an *only* form) or the same declaration (factory/class with the recorded "
+                   "arguments). That the recorded arguments describe the current declaration after a history, equality/hash of the "
+                   "result and the byte content of pickles are checked bounded through the real pickle (all protocols).",
+        level_note="pickle itself is an assumed external contract; the link 'recorded arguments = current declaration' is bounded.",
+        explanation='reductions proved over an assumed pickle model; round trips through the real pickle bounded',
     ),
     'C14': dict(
         title='Calling an interface follows the PEP 246 adaptation order',
@@ -179,10 +184,14 @@ PROPS = {
     ),
     'C19': dict(
         title='super() proxies see only the remainder of the MRO',
-        contracts=[], falsifier='C19', modes=['py', 'c'], level='other',
-        level_text='Bounded only so far: random class DAGs <=5 with every (C, ob) along every MRO, before and after declaration changes.',
-        level_note='bounded',
-        explanation='bounded run-time contract checking of the real code against an executable specification written from the statement; no obligation discharged yet for this property',
+        contracts=['C19_super'], falsifier='C19', modes=['py', 'c'], level='other',
+        level_text="_next_super_class and _implementedBy_super are verified from their real bodies: for s = super(C, ob) the returned "
+                   "specification has exactly the bases [implementedBy(c) for c in type(ob).__mro__ after C], whether it is built or "
+                   "taken from the per-class cache, and the cache stays sound (every entry has that shape for its own key) for every "
+                   "MRO and cache content. The dispatch from providedBy/implementedBy/adapter_hook to this function, the C branches "
+                   "and the follow-up of later declaration changes are checked bounded on random class DAGs.",
+        level_note="implementedBy of plain classes and Implements.named are assumed contracts (C01, C02); C branches bounded.",
+        explanation='the super specification builder proved; dispatch and C twins bounded',
     ),
     'C20': dict(
         title='Declaration algebra: iteration, membership, + and - obey ordered-set laws',
